@@ -102,9 +102,13 @@ Fixpoint edit_attr (i : nat) (v : str) (n : xn) : xn :=
   | other => other
   end.
 
+(** after the loop the tool refuses to print a document without a document element *)
+Definition finish (d : xdoc) : outcome :=
+  if existsb is_elem (dchildren d) then Done d else Refused.
+
 Fixpoint xe_loop (d : xdoc) (sel : list (nat * kind)) (frag : list fnode) : outcome :=
   match sel with
-  | [] => Done d
+  | [] => finish d
   | (i, k) :: rest =>
     match k with
     | KOther => Refused
